@@ -1624,6 +1624,17 @@ class Norm:
         grouped = self._group_same_head(scr, arms)
         if grouped is not None:
             return self._canon_match(scr, grouped)
+        if len(arms) == 2 and all(g is None for _p, g, _b in arms) and {arms[0][0], arms[1][0]} == {"v1::Ok($)", "v1::Err($)"}:
+            okb = next(b for p, _g, b in arms if p == "v1::Ok($)")
+            erb = next(b for p, _g, b in arms if p == "v1::Err($)")
+            okp, erp = ("proj", scr, "v1::Ok", "0"), ("proj", scr, "v1::Err", "0")
+            if okb == okp and erb[0] == "ret" and erb[1][0] == "call" and erb[1][1] == "Err" and len(erb[1][2]) == 1:
+                # match x { Ok(v) => v, Err(e) => return Err(f(e)) }   ==   x.map_err(f)?
+                E = erb[1][2][0]
+                if E == erp:
+                    return ("try", scr)
+                if not any(x == erp for x in subterms(E)):
+                    return ("try", ("call", "Result::map_err", [scr, ("closure", 1, 1, E)]))
         if len(arms) == 2 and all(g is None for _p, g, _b in arms):
             (p1, _g1, b1), (p2, _g2, b2) = arms
             catch = ("_", "$", "v1::None", "Option::None")
